@@ -149,6 +149,7 @@ def expand(crate_json):
         body = f.get("body")
         if not body:
             continue
+        total += _desugar_for_each(f, closures)
         total += _expand_fn(f, helpers, 0, {f["path"]}, closures)
     if total:
         _drop_absorbed(crate_json, helpers, closures)
@@ -373,6 +374,82 @@ def _capture_locals(body, agg, cbody, memo):
     stmts[at:at] = ins
     memo[key] = caps
     return caps
+
+
+def _desugar_for_each(f, closures):
+    """`iter.for_each(|x| body)` with a closure written on the spot is the loop
+    `while let Some(x) = iter.next() { body }`: the call is replaced by that loop (a `next` call, a
+    switch on the discriminant, a direct call of the closure that the expansion below then copies
+    in), so that the loop rules read a `for_each` as they read a `for`. The pinned tree has no
+    `for_each`."""
+    body = f["body"]
+    n = 0
+    for bi in range(len(body["blocks"])):
+        bb = body["blocks"][bi]
+        term = bb["term"]
+        if term.get("k") != "call" or len(term.get("args") or []) != 2:
+            continue
+        fn = ((term.get("func") or {}).get("k") or {}).get("fn") or {}
+        if fn.get("path") != "std::iter::Iterator::for_each":
+            continue
+        agg = _find_closure_agg(body, term["args"][1], None)
+        cpl = _op_place(term["args"][1])
+        if agg is None or cpl is None or cpl["p"]:
+            continue
+        c = closures.get(agg[2]["rv"]["closure"])
+        if c is None or c["body"]["arg_count"] != 2 or c["path"] == f["path"]:
+            continue
+        iter_ty = (term.get("arg_tys") or ["?"])[0]
+        item_ty = c["body"]["locals"][2]["ty"]
+        clos_ty = body["locals"][cpl["l"]]["ty"]
+        sp = term.get("sp")
+        L = body["locals"]
+
+        def new(ty, mut=False):
+            L.append({"ty": ty, "mut": True} if mut else {"ty": ty})
+            return len(L) - 1
+        it = new(iter_ty, True)
+        r = new("&mut " + iter_ty)
+        opt = new("std::option::Option<%s>" % item_ty, True)
+        d = new("isize")
+        tup = new("(%s,)" % item_ty)
+        cref = new("&mut " + clos_ty)
+        unit = new("()")
+        B = body["blocks"]
+        H, S, C, X, E = len(B), len(B) + 1, len(B) + 2, len(B) + 3, len(B) + 4
+        cont = term.get("t")
+        dest = term["dest"]
+        bb["stmts"].append({"lhs": {"l": it, "p": []}, "rv": {"k": "use", "op": copy.deepcopy(term["args"][0])}, "sp": sp})
+        bb["term"] = {"sp": sp, "k": "goto", "t": H, "desugared": "for_each"}
+        B.append({"stmts": [{"lhs": {"l": r, "p": []}, "rv": {"k": "ref", "bk": "mut", "place": {"l": it, "p": []}}, "sp": sp}],
+                  "term": {"sp": sp, "k": "call",
+                           "func": {"k": {"ty": "fn(&mut %s) -> Option<%s> {<%s as std::iter::Iterator>::next}" % (iter_ty, item_ty, iter_ty),
+                                          "fn": {"path": "std::iter::Iterator::next", "krate": "core", "args": [iter_ty],
+                                                 "name": "next", "trait": "std::iter::Iterator", "self_ty": iter_ty}}},
+                           "args": [{"m": {"l": r, "p": []}}], "arg_tys": ["&mut " + iter_ty],
+                           "dest": {"l": opt, "p": []}, "dest_ty": "std::option::Option<%s>" % item_ty, "t": S, "fn_sp": sp}})
+        B.append({"stmts": [{"lhs": {"l": d, "p": []}, "rv": {"k": "discr", "place": {"l": opt, "p": []},
+                                                                "ty": "std::option::Option<%s>" % item_ty}, "sp": sp}],
+                  "term": {"sp": sp, "k": "switch", "op": {"m": {"l": d, "p": []}}, "ty": "isize", "vals": [0, 1],
+                           "targets": [E, C], "otherwise": X}})
+        item = {"m": {"l": opt, "p": [{"dc": 1, "n": "Some"},
+                                      {"f": 0, "o": "std::option::Option", "v": "Some", "n": "0", "t": item_ty}]}}
+        B.append({"stmts": [{"lhs": {"l": tup, "p": []}, "rv": {"k": "agg", "agg": "tuple", "ops": [item]}, "sp": sp},
+                            {"lhs": {"l": cref, "p": []}, "rv": {"k": "ref", "bk": "mut", "place": {"l": cpl["l"], "p": []}}, "sp": sp}],
+                  "term": {"sp": sp, "k": "call",
+                           "func": {"k": {"ty": "closure call", "fn": {"path": "std::ops::FnMut::call_mut", "krate": "core",
+                                                                       "args": [clos_ty, "(%s,)" % item_ty], "name": "call_mut",
+                                                                       "trait": "std::ops::FnMut", "self_ty": clos_ty,
+                                                                       "resolved": {"path": c["path"], "krate": f.get("krate", ""), "args": [],
+                                                                                    "kind": "", "def": "Closure"}}}},
+                           "args": [{"m": {"l": cref, "p": []}}, {"m": {"l": tup, "p": []}}],
+                           "arg_tys": ["&mut " + clos_ty, "(%s,)" % item_ty],
+                           "dest": {"l": unit, "p": []}, "dest_ty": "()", "t": H, "fn_sp": sp}})
+        B.append({"stmts": [], "term": {"sp": sp, "k": "unreachable"}})
+        B.append({"stmts": [{"lhs": copy.deepcopy(dest), "rv": {"k": "use", "op": {"k": {"ty": "()", "zst": True, "dbg": "()"}}}, "sp": sp}],
+                  "term": {"sp": sp, "k": "goto", "t": cont} if cont is not None else {"sp": sp, "k": "unreachable"}})
+        n += 1
+    return n
 
 
 def _expand_fn(f, helpers, depth, stack, closures=None):
